@@ -81,7 +81,8 @@ static void do_raise(int sig) {
   else { raise(sig); printf("raised\n"); }
 }
 
-static void check_cb(uv_check_t* c) { uv_check_stop(c); do_raise(chk_sig); }
+static void obs(void);
+static void check_cb(uv_check_t* c) { uv_check_stop(c); printf("check\n"); obs(); do_raise(chk_sig); }
 
 static int known_sig(int sig) { for (int j = 0; j < NSIGS; j++) if (SIGS[j] == sig) return 1; return 0; }
 
